@@ -223,6 +223,26 @@ def vcs_marker_rule(ctx, rule: str) -> None:
                 "`git rev-parse --git-dir` also succeeds in a sub-directory of a repository: `git status --porcelain` then prints paths relative to the repository root while the "
                 "configured paths are relative to the project directory, so a dirty pattern file is never recognised", loc=iu.loc(),
                 witness={"layout": "project in packages/core/ of a git repository", "flag": "--allow-dirty"}, what="is_usable: marker tested for existence only")
+    # a probe that fails means "not usable", not an error: the probe command is run through an API that reports the status
+    # (sp.call / sp.run without check) or its CalledProcessError is caught inside is_usable.  (get_vcs_api / get_tags catch OSError only.)
+    from sa.cfg import handler_can_catch
+    cfg = ctx.cfgs.get(iu.fq)
+    for c in ast.walk(iu.node):
+        if not isinstance(c, ast.Call):
+            continue
+        f_ = unparse(c.func)
+        raising = f_ in ("self", "sp.check_output", "sp.check_call", "subprocess.check_output", "subprocess.check_call") or \
+            (f_ in ("sp.run", "subprocess.run") and any(k.arg == "check" and isinstance(k.value, ast.Constant) and k.value.value is True for k in c.keywords))
+        if not raising:
+            continue
+        nid = cfg.node_containing(c)
+        caught = any(nid in shapes.try_body_nodes(cfg, hid) and (handler_can_catch(cfg.nodes[hid].extra.get("types"), "CalledProcessError"))
+                     for hid in shapes.handlers_catching(cfg, ["CalledProcessError"]))
+        ctx.check(rule, caught, "is_usable: a failing probe command answers False",
+                  "vcs.VCSAPI.is_usable: a failing probe command raises instead of answering 'not usable'",
+                  f"`{unparse(c)[:60]}` raises CalledProcessError when `git rev-parse --git-dir` fails (a stale `.git` pointer file, a repository git refuses): nothing between here and "
+                  f"the command catches it - `show`, `update` and `init`'s follow-up die with a traceback where they used to go on without a VCS", loc=iu.loc(c),
+                  witness={"layout": ".git is a file `gitdir: /gone/...`"})
 
 
 def run(ctx) -> None:
@@ -230,7 +250,9 @@ def run(ctx) -> None:
     ctx.rule("R1", "every feasible path to the commit step passes assert_not_dirty before any rewrite; arguments wired")
     ctx.rule("R2", "assert_not_dirty returns normally iff (allow_dirty or no dirty file) and no dirty pattern file; otherwise exits non-zero")
     ctx.rule("R3", "status lines are parsed by fixed columns compatible with the porcelain grammar")
-    ctx.rule("R4", "a status line is dropped only when untracked ('??') and not a pattern file")
+    ctx.rule("R4", "a status line is dropped only when untracked ('??') and not a pattern file; the status command lists changed and untracked files only")
+    from checks.c10 import command_options_rule
+    command_options_rule(ctx, "R4", "status")
     ctx.rule("R6", "prerequisite: what is staged and committed is exactly the configured set of files (C08/R1-R2)")
     from sa.report import run_prerequisite
     run_prerequisite(ctx, "C08", ("R1", "R2"), "R6")
